@@ -411,7 +411,14 @@ func parseString(p *peeker) (node, hcl.Diagnostics) {
     if err != nil {
         var errRange hcl.Range
         if serr, ok := err.(*json.SyntaxError); ok {
+            // Offset counts the bytes consumed up to and including the
+            // offending one (or all of them if the string just ends), so
+            // the byte to point at is the one before it. This also keeps
+            // the range inside the token.
             errOfs := serr.Offset
+            if errOfs > 0 {
+                errOfs--
+            }
             errPos := tok.Range.Start
             errPos.Byte += int(errOfs)
 
